@@ -309,7 +309,7 @@ class Run:
                     env.setdefault("UBSAN_OPTIONS", "print_stacktrace=1")
                 jobs.append(("impl", cfg, si, [exe], inf, os.path.join(self.tmp, f"{label}.{si}.{cfg_label(cfg)}"), env))
         with cf.ThreadPoolExecutor(max_workers=NPROC) as ex:
-            futs = {ex.submit(run_proc, j[3], j[4], j[5], j[6], 900 if self.tier == "quick" else 5400): j for j in jobs}
+            futs = {ex.submit(run_proc, j[3], j[4], j[5], j[6], (getattr(self.mod, "SHARD_TIMEOUT", 900) if self.tier == "quick" else 5400)): j for j in jobs}
             rcs = {}
             for fu in cf.as_completed(futs):
                 j = futs[fu]
